@@ -289,6 +289,9 @@ class BaseAccumulator:
         self.pass_info = pass_info
         self.children = []
         self.captures = {}
+        # The accumulator given by the user from which this one was forked
+        # (directly or not), or None if it is that accumulator
+        self.origin = None
 
     def __check(self, fn, check):
         def new_fn(results, acc=None, element=None):
@@ -309,7 +312,7 @@ class BaseAccumulator:
         accumulated by their parents.
         """
         parent = None if self.template else self
-        return type(self)(
+        rval = type(self)(
             selector=selector or self.selector,
             intercept=self._intercept,
             trigger=self._trigger,
@@ -319,6 +322,8 @@ class BaseAccumulator:
             template=False,
             check=False,  # False, because functions are already wrapped
         )
+        rval.origin = self.origin or self
+        return rval
 
     def accumulator_for(self, element):
         return self
